@@ -187,7 +187,7 @@ def check_sorts(ctx, rep, funcs, rule=RULE):
     return n
 
 
-def check_grammar_symbol_sorts(ctx, rep, funcs, rule=RULE + '.cfg'):
+def check_grammar_symbol_sorts(ctx, rep, funcs, rule=RULE + '.cfg', equalities=True):
     """Variable and Terminal are str subclasses: `x in V` / `x in Sigma` compare NAMES, so a terminal called A is "in" a
     set of variables that contains the variable A (fresh variables are chosen fresh for V only).  A symbol that may be of
     the other class must be told apart by class (isinstance, is_variable(), is_unit_rule() ...) before such a test."""
@@ -201,6 +201,12 @@ def check_grammar_symbol_sorts(ctx, rep, funcs, rule=RULE + '.cfg'):
             continue
         fx = None
         for s in walk_no_nested(f.node):
+            if isinstance(s, ast.Compare) and len(s.ops) == 1 and isinstance(s.ops[0], (ast.Eq, ast.NotEq)):
+                # the grammar operations of the library work on arbitrary grammars; the notebook checkers only see grammars
+                # read by parse_simple_cfg, whose variables and terminals are spelled differently by construction
+                if equalities and f.module.base in ('cfg_algorithms.py', 'cfg.py'):
+                    n += _check_symbol_equality(ctx, rep, f, env, s, rule, VAR, TER)
+                continue
             if not (isinstance(s, ast.Compare) and len(s.ops) == 1 and isinstance(s.ops[0], (ast.In, ast.NotIn))):
                 continue
             a, b = s.left, s.comparators[0]
@@ -275,3 +281,65 @@ def check_grammar_symbol_sorts(ctx, rep, funcs, rule=RULE + '.cfg'):
                 rep.violates(rule, f, s, '`{}`: {} may be a {} here, but the test compares names with a set of {}s -- a {} whose name equals that of a {} (e.g. the terminal A and a fresh variable A, chosen fresh for V only) passes the test, so it is treated as a {}'.format(
                     u(s), txt, other, cls_name, other.lower(), cls_name.lower(), cls_name.lower()))
     return n
+
+
+def _check_symbol_equality(ctx, rep, f, env, s, rule, VAR, TER):
+    """`x == y` / `xs == [y]` between grammar symbols: equality of str subclasses compares NAMES.  When one side is known
+    to be of one class and the other side may be of the other class (a symbol of a right-hand side), a terminal spelled
+    like the variable compares equal to it; the class of that side must be established first."""
+    from ..astutil import expr_guard_atoms
+
+    def classes(e):
+        """(classes of the value, is_list)"""
+        try:
+            t = env.type_of(e)
+        except Exception:
+            t = None
+        if isinstance(e, ast.List):
+            cs = set()
+            for x in e.elts:
+                c0, l0 = classes(x)
+                if l0 or not c0:
+                    return set(), True
+                cs |= c0
+            return cs, True
+        ms = members(t) if t is not None else []
+        if ms and all(m[0] == 'cls' for m in ms):
+            return {m[1] for m in ms}, False
+        if ms and all(m[0] in ('list', 'tuple') for m in ms):
+            et = elem_type(t)
+            es = members(et) if et is not None else []
+            if es and all(m[0] == 'cls' for m in es):
+                return {m[1] for m in es}, True
+        return set(), False
+    a, b = s.left, s.comparators[0]
+    (ca, la), (cb, lb) = classes(a), classes(b)
+    if not ca or not cb or la != lb or not (ca <= {VAR, TER}) or not (cb <= {VAR, TER}):
+        return 0
+    if ca == cb and len(ca) == 1:
+        rep.holds(rule, f, s, 'equality within one class of grammar symbols', nontrivial=False)
+        return 1
+    if len(ca) == 1 and len(cb) == 1:
+        # Variable == Terminal: always a comparison of names across classes
+        rep.violates(rule, f, s, '`{}` compares a {} with a {} by name: the two are of different classes, equal spelling does not make them the same symbol'.format(
+            u(s), next(iter(ca)).split('.')[-1], next(iter(cb)).split('.')[-1]))
+        return 1
+    if len(ca) == 2 and len(cb) == 2:
+        return 0          # symbol against symbol: no class is claimed
+    mixed, single, want = (a, b, cb) if len(ca) == 2 else (b, a, ca)
+    want = next(iter(want))
+    cls_name = want.split('.')[-1]
+    if cls_name != 'Variable':
+        return 0          # a symbol against a fixed terminal (epsilon): no variable is spelled like it
+    other_name = 'Terminal' if cls_name == 'Variable' else 'Variable'
+    fx = ctx.facts(f)
+    nid = fx.stmt_of_expr(s)
+    atoms = (list(fx.guard_atoms(nid)) if nid is not None else []) + expr_guard_atoms(f.node, s)
+    txt = u(mixed)
+    established = any(at[0] == 'isinstance' and ((at[3] is True and cls_name in str(at[2])) or (at[3] is False and other_name in str(at[2]))) and (at[1] == txt or at[1].startswith(txt + '[')) for at in atoms)
+    if established:
+        rep.holds(rule, f, s, 'the class of {} is established before the comparison'.format(txt))
+    else:
+        rep.violates(rule, f, s, '`{}`: {} may {} a {} here, but it is compared by name with {} {}: a {} spelled like the {} compares equal to it and is treated as the {} (e.g. the rule A -> \'A\' with the terminal A is taken for the useless rule A -> A)'.format(
+            u(s), txt, 'contain' if la else 'be', other_name, 'a list of' if la else 'the', cls_name + ('s' if la else ''), other_name.lower(), cls_name.lower(), cls_name.lower()))
+    return 1
